@@ -181,6 +181,112 @@ def h_div(em, a):
     em.wr(a[1], "tmod %s %s" % (x, y))
 
 
+# ------------------------------------------------------------------------------------------------ lattice.c callers
+LAT_PARAMS = ("{M V : Type} (mul : Int → Int → Int) (mget : M → Nat → Nat → Int) (mkVec : Int → Int → Int → Int → V)\n"
+              "    (scalarMul : Int → M → M) (transpose : M → M) (invWithDet : M → M × Int) (hnfCore : List V → M)\n"
+              "    (reduceDenom : Int → M → Int × M)")
+
+
+class LatEmit(Emit):
+    """operands: scalars (Int), matrices (M: `X->basis`, locals `tmp`, `inv`), entries `X[i][j]` of 4x4 locals and of the 4x8
+    local `hnf_input` (entries are Int expressions), lattices `dual1`… as pairs of operands `<name>->denom`, `<name>->basis`"""
+
+    def __init__(self, name, inputs, mats):
+        super().__init__(name, inputs)
+        self.mats = set(mats)
+
+    def rd(self, op):
+        m = re.match(r"^(\w+(?:->\w+)?)\[(\d+)\]\[(\d+)\]$", op)
+        if m and op not in self.env:
+            base = m.group(1)
+            if base in self.env:
+                return "(mget %s %s %s)" % (self.env[base], m.group(2), m.group(3))
+        return super().rd(op)
+
+
+def lattice_callers(lt):
+    out = []
+
+    def handlers(em):
+        def h_smul(e, a): e.wr(a[0], "scalarMul %s %s" % (e.rd(a[1]), e.rd(a[2])), "M")
+        def h_tr(e, a): e.wr(a[0], "transpose %s" % e.rd(a[1]), "M")
+        def h_mul(e, a): e.wr(a[0], "mul %s %s" % (e.rd(a[1]), e.rd(a[2])))
+        def h_set(e, a): e.wr(a[0], a[1])
+
+        def h_inv(e, a):
+            # callee summary (dim4.c: the inverse is written only when the determinant is non-zero; det always)
+            src_ = e.rd(a[2])
+            old = e.env.get(a[0])
+            e.wr("<r>", "invWithDet %s" % src_, "M × Int")
+            r = e.env["<r>"]
+            e.wr(a[1], "%s.2" % r)
+            e.wr(a[0], ("if %s.2 = 0 then %s else %s.1" % (r, old, r)) if old else "%s.1" % r, "M")
+
+        def h_core(e, a):
+            cols = []
+            for h in range(8):
+                cols.append("mkVec %s" % " ".join(e.rd("%s[%d][%d]" % (a[1], i, h)) for i in range(4)))
+            e.wr(a[0], "hnfCore [%s]" % ", ".join(cols), "M")
+
+        def h_red(e, a):
+            src_ = a[1]
+            e.wr("<rd>", "reduceDenom %s %s" % (e.rd(src_ + "->denom"), e.rd(src_ + "->basis")), "Int × M")
+            e.wr(a[0] + "->denom", "%s.1" % e.env["<rd>"])
+            e.wr(a[0] + "->basis", "%s.2" % e.env["<rd>"], "M")
+        return {"ibz_mat_4x4_scalar_mul": h_smul, "ibz_mat_4x4_transpose": h_tr, "ibz_mul": h_mul, "ibz_copy": h_copy,
+                "ibz_set": h_set, "ibz_mat_4x4_inv_with_det_as_denom": h_inv, "ibz_mat_4x8_hnf_core": h_core,
+                "quat_lattice_reduce_denom": h_red}
+
+    def pre(body):
+        # declarations / init / finalize of matrices and lattices carry no data flow
+        body = re.sub(r"\b(ibz_mat_4x8_t|ibz_mat_4x4_t|quat_lattice_t)\s+[\w\s,]+;", "", body)
+        body = re.sub(r"\b(ibz_mat_4x8_init|ibz_mat_4x4_init|ibz_mat_4x8_finalize|ibz_mat_4x4_finalize|quat_lattice_init|"
+                      r"quat_lattice_finalize)\([^;]*\);", "", body)
+        return body
+
+    def norm2(a, env, name):
+        a2 = re.sub(r"\s+", "", a)
+        while a2.startswith("&"):
+            a2 = a2[1:]
+        while a2.startswith("(") and a2.endswith(")"):
+            a2 = a2[1:-1]
+            while a2.startswith("&"):
+                a2 = a2[1:]
+        m = re.match(r"^(\w+(?:->\w+)?)\[([^\]]+)\]\[([^\]]+)\]$", a2)
+        if m:
+            return "%s[%d][%d]" % (m.group(1), ev(m.group(2), env, name), ev(m.group(3), env, name))
+        if re.match(r"^-?\d+$", a2) or re.match(r"^\w+(->\w+)?$", a2):
+            return a2
+        raise TranslateError("%s: operand not in subset: %r" % (name, a2))
+
+    global norm_operand
+    saved = norm_operand
+    norm_operand = norm2
+    try:
+        # quat_lattice_add
+        em = LatEmit("quat_lattice_add", {"lat1->denom": "d1", "lat1->basis": "b1", "lat2->denom": "d2", "lat2->basis": "b2"}, [])
+        run_block(parse_block(pre(func_body(lt, "quat_lattice_add")), em.name), em, {}, handlers(em))
+        out += ["/-- `quat_lattice_add`: data flow as coded (which basis is scaled by which denominator, which half of the 4x8",
+                "    input it fills, HNF, product of denominators, reduce_denom); returns (res->denom, res->basis) -/",
+                "def quat_lattice_add %s\n    (d1 : Int) (b1 : M) (d2 : Int) (b2 : M) : Int × M :=" % LAT_PARAMS] + em.lets + \
+               ["  (%s, %s)" % (em.rd("res->denom"), em.rd("res->basis")), ""]
+        # quat_lattice_hnf
+        em = LatEmit("quat_lattice_hnf", {"lat->denom": "d", "lat->basis": "b"}, [])
+        run_block(parse_block(pre(func_body(lt, "quat_lattice_hnf")), em.name), em, {}, handlers(em))
+        out += ["/-- `quat_lattice_hnf` -/",
+                "def quat_lattice_hnf %s\n    (d : Int) (b : M) : Int × M :=" % LAT_PARAMS] + em.lets + \
+               ["  (%s, %s)" % (em.rd("lat->denom"), em.rd("lat->basis")), ""]
+        # quat_lattice_dual_without_hnf
+        em = LatEmit("quat_lattice_dual_without_hnf", {"lat->denom": "d", "lat->basis": "b"}, [])
+        run_block(parse_block(pre(func_body(lt, "quat_lattice_dual_without_hnf")), em.name), em, {}, handlers(em))
+        out += ["/-- `quat_lattice_dual_without_hnf` (the callee leaves `inv` untouched when the determinant is 0) -/",
+                "def quat_lattice_dual_without_hnf %s\n    (d : Int) (b : M) : Int × M :=" % LAT_PARAMS] + em.lets + \
+               ["  (%s, %s)" % (em.rd("dual->denom"), em.rd("dual->basis")), ""]
+    finally:
+        norm_operand = saved
+    return out
+
+
 def generate(repo, outdir):
     d4 = strip_c_comments(open(os.path.join(repo, "src/quaternion/ref/generic/dim4.c")).read())
     lt = strip_c_comments(open(os.path.join(repo, "src/quaternion/ref/generic/lattice.c")).read())
@@ -212,6 +318,9 @@ def generate(repo, outdir):
             "def quat_lattice_reduce_denom {M : Type} (gcd tdiv tmod : Int → Int → Int) (matGcd : M → Int)",
             "    (matScalarDiv : Int → M → M) (denom : Int) (basis : M) : Int × M :="] + em.lets + \
            ["  (%s, %s)" % (em.rd("reduced->denom"), em.rd("reduced->basis")), "", "end SqiGen.QuatMat", ""]
+    out.pop(); out.pop()          # reopen the namespace
+    out += lattice_callers(lt)
+    out += ["end SqiGen.QuatMat", ""]
     changed = write_if_changed(os.path.join(outdir, "QuatMat.lean"), "\n".join(out))
     return ["QuatMat.lean regenerated"] if changed else []
 
